@@ -23,7 +23,7 @@ ASSUMPTIONS = [
     "at most k states more than the minimal reference automaton",
     "element 'metadata' is judged against 'at most one child of any name' (C05), not its empty children section",
 ]
-REQUIRED = ["validations_of_nested_parent", "foreign_children_with_prefix", "validations_on_reused_parent_object", "validations_on_reused_rule_object", "collecting_calls_with_prefilled_list", "failfast_accept", "failfast_reject", "collecting_accept", "collecting_reject", "oracle_crosschecks"]
+REQUIRED = ["sequences_longer_than_256", "table_edit_probes", "validations_of_nested_parent", "foreign_children_with_prefix", "validations_on_reused_parent_object", "validations_on_reused_rule_object", "collecting_calls_with_prefilled_list", "failfast_accept", "failfast_reject", "collecting_accept", "collecting_reject", "oracle_crosschecks"]
 EXHAUSTIVE = {"quick": False, "thorough": False}
 
 FOREIGN_NAME = "verifForeignElement"
@@ -279,6 +279,23 @@ def run_rule(ctx, rule_name, tier, part, parts):
         if n % 9973 == 1:
             ctx.sample({"rule": rule_name, "element": element, "children": _materialise(seq, spec.names),
                         "reference": expected, "failfast": out[0], "collecting": out[1]})
+    if part == 0:
+        # long sequences (hundreds of children: an attribute list, a taxonomic coverage): a short valid sequence with one symbol
+        # pumped at one position, judged by walking the reference machine
+        base = emlkit.shortest_valid_sequence(rule_name) or []
+        longs = 0
+        for i in range(len(base) + 1):
+            for a in m.sigma:
+                if longs >= (6 if tier == "quick" else 40):
+                    break
+                for count in (257, 300, 1000):
+                    seq = tuple(base[:i]) + (a,) * count + tuple(base[i:])
+                    expected = m.verdict(seq)
+                    if expected == relang.ACCEPT or (a != relang.FOREIGN and count == 257 and longs % 3 == 0):
+                        judge(ctx, rule_name, elements[0] if elements[0] != "metadata" else elements[-1], seq, expected, stats)
+                        ctx.count("sequences_longer_than_256")
+                        longs += 1
+                        break
     if "metadata" in elements and part == 0:
         for j in range(0, 4):
             for s in itertools.product(["dataset", "para", relang.FOREIGN], repeat=j):
@@ -295,7 +312,59 @@ def run_rule(ctx, rule_name, tier, part, parts):
         info[k_] = info.get(k_, 0) + v
 
 
+def table_edit_probe(ctx):
+    """The rule table is a public module-level dict.  After an entry was replaced (or edited in place) at run time, the two public
+    ways to the rule of an element - Rule(rule name) and validate.node / get_rule(element name) - must still agree with each
+    other on every sequence: a validator that follows the live table and one that follows a consistent snapshot both do; a lookup
+    path that remembers what it built earlier while the other one reads the table does not."""
+    import copy
+    table = emlkit.mrule.rules_dict
+    for rule_name in ("individualNameRule", "boundsRule", "addressRule"):
+        elements = emlkit.elements_of(rule_name)
+        if rule_name not in table or not elements:
+            continue
+        element = elements[0]
+        names = [c for c in emlkit.spec_of(rule_name).names][:3]
+        if len(names) < 2:
+            continue
+        saved = table[rule_name]
+        seqs = [[], [names[0]], [names[1]], [names[1], names[0]], [names[0], names[1]], names[:3], ["verifNewChild"], [names[0], "verifNewChild"]]
+        try:
+            for variant in ("replaced", "edited-in-place"):
+                emlkit.validate_as(rule_name, emlkit.make_node(rule_name, element, names[:1]), [], via="node")   # the element was looked up before
+                if variant == "replaced":
+                    entry = copy.deepcopy(saved)
+                    entry[1] = [[names[1], 1, 1], [names[0], 0, 1]]
+                    table[rule_name] = entry
+                else:
+                    table[rule_name] = copy.deepcopy(saved)
+                    emlkit.validate_as(rule_name, emlkit.make_node(rule_name, element, names[:1]), [], via="node")
+                    table[rule_name][1].append(["verifNewChild", 0, 1])
+                for seq in seqs:
+                    got = []
+                    for via in ("rule", "node"):
+                        n = emlkit.make_node(rule_name, element, seq)
+                        errs = []
+                        try:
+                            emlkit.validate_as(rule_name, n, errs, via=via)
+                            got.append("accept" if not [e for e in errs if e[0].name in emlkit.CHILD_CODES] else "reject")
+                        except Exception as e:
+                            got.append(f"raised:{type(e).__name__}")
+                        emlkit.discard(n)
+                    ctx.evaluated(2)
+                    ctx.count("table_edit_probes")
+                    if got[0] != got[1]:
+                        ctx.violation("validation-paths-disagree-after-table-edit",
+                                      f"{rule_name} {variant} at run time: children {seq}: Rule({rule_name!r}).validate_rule says {got[0]}, "
+                                      f"validate.node(<{element}>) says {got[1]}", {"table_edit_probe": True})
+                        break
+        finally:
+            table[rule_name] = saved
+
+
 def run(ctx, params):
+    if params.get("part", 0) == 0 and params["rules"] and params["rules"][0] == emlkit.rule_names()[0]:
+        table_edit_probe(ctx)
     for r in params["rules"]:
         try:
             with ctx.guard(3000.0):
@@ -322,6 +391,11 @@ def finish(merged):
 
 
 def replay(ctx, witness):
+    if witness.get("table_edit_probe"):
+        table_edit_probe(ctx)
+        ctx.distinct(1)
+        ctx.distinct(2)
+        return
     r = witness["rule"]
     m = emlkit.machine_of(r)
     seq = tuple(witness["seq"])
